@@ -13,6 +13,7 @@ mod desc;
 mod c01;
 mod c02;
 mod c05;
+mod c07;
 mod c10;
 mod c11expr;
 mod c15;
@@ -35,6 +36,7 @@ fn main() {
         "C01" => c01::run(&mut out, thorough, seed),
         "C02" => c02::run(&mut out, thorough, seed),
         "C05" => c05::run(&mut out, thorough, seed),
+        "C07" => c07::run(&mut out, thorough, seed),
         "C10" => c10::run(&mut out, thorough, seed),
         "C11" => c11expr::run(&mut out, thorough, seed),
         "C15" => c15::run(&mut out, thorough, seed),
